@@ -198,7 +198,7 @@ func (ld *Loaded) contractVC(c *Contract, o vcOpts) (vc *VC, err error) {
 	for _, cl := range c.Requires {
 		x.assume(x.evalPred(cl.Fn, inst.args, pre, st, nil, nil).(*Term))
 	}
-	x.pinBoolHyps(st)
+	x.pinBoolHyps(st, inst.args)
 	pre = st.h.clone()
 	x.obligs = nil
 	mods := x.resolveMods(c.Modifies, inst.args, st, nil)
@@ -283,7 +283,7 @@ func (ld *Loaded) contractVC(c *Contract, o vcOpts) (vc *VC, err error) {
 // pinBoolHyps: a hypothesis that is a bare boolean unknown (or its negation)
 // is substituted into the symbolic pre-state, so that the code's own tests of
 // it fold (cpu.Memory != nil, cpu.Interrupt != nil, …).
-func (x *Exec) pinBoolHyps(st *State) {
+func (x *Exec) pinBoolHyps(st *State, args ...[]Value) {
 	bind := map[*Term]*Term{}
 	var rest []*Term
 	for _, h := range x.hyps {
@@ -306,6 +306,11 @@ func (x *Exec) pinBoolHyps(st *State) {
 	memo := map[*Term]*Term{}
 	for o, v := range st.h {
 		st.h[o] = x.substV(v, bind, memo)
+	}
+	for _, as := range args {
+		for i := range as {
+			as[i] = x.substV(as[i], bind, memo) // by-value arguments (maps, slices, interfaces) carry terms too
+		}
 	}
 	x.hyps = nil
 	for _, r := range rest {
